@@ -647,6 +647,8 @@ def unrange_map_collect_general(f):
         if not m2 or not re.match(r'\w+$', params):
             break
         k = f'r{n}_'
+        if params == '_':
+            params = f'i_{k}'
         new = f'{{ let mut v_{k} = Vec::new(); for {params} in {m.group(1)}..{m.group(2)} {{ let x_{k} = {cbody}; v_{k}.push(x_{k}); }} v_{k} }}'
         f.body = f.body[:m.start()] + new + f.body[close + 1 + m2.end():]
         n += 1
